@@ -164,6 +164,24 @@ def long_parse_cases():
     c.append("'" + 'é' * 500 + "'")
     c.append('a' * 2000)
     c.append('1' * 28 + ' + ' + '1' * 27)
+    # medium sizes: beyond any plausible small cap (32, 64), far from the stack
+    for n in (33, 40, 65, 100):
+        c.append(' = '.join('x%d' % i for i in range(n)) + ' = 5')
+        c.append('1 + 1 * (' * min(n // 3, 14) + '2 + 3 * 4' + ')' * min(n // 3, 14))      # expr() renders a parenthesised operand twice: exponential in this nesting (DESIGN 6, observation)
+        c.append(' + '.join('a%d * b%d' % (i, i) for i in range(n)))
+        c.append(' || '.join('a%d && b%d' % (i, i) for i in range(n)))
+        c.append('f(' * n + '1' + ')' * n)
+        c.append(' ? '.join('c%d' % i for i in range(n)) + ' : z' * (n - 1))
+        c.append('[' * n + 'a not in b' + ']' * n)
+        c.append("{'k':" * n + 'a not in b' + '}' * n)
+    # inputs longer than 4 KiB / 64 KiB, with multi-byte characters around the 32nd, 64th, 4096th byte
+    c.append("'" + 'é' * 2100 + "'")
+    c.append("state == '" + 'Ö' * 20 + "' && city in [" + ', '.join("'Zürich%d'" % i for i in range(400)) + ']')
+    c.append("'" + '日本語' * 800 + "' == x")
+    c.append(' + '.join(['abcdefghij'] * 700))
+    c.append("x = '" + 'a' * 31 + 'é' * 3000 + "'; x")
+    c.append(' ' * 5000 + '1' + ' ' * 5000)
+    c.append('a' * 70000)
     return c
 
 def conv_cases():
@@ -224,6 +242,13 @@ SCRIPTS = [
        expect=[None, ('table',), None, ('table',), ('table',), None, ('table',), ('val', 'List([String("rr3"), Number(1), Number(2)])'), None, ('table',), ('table',)]),
   dict(name='multi_byte_operator_followed_directly_by_text', steps=[('reg_infix', '≠', dict(tag='ne', p='60', assoc='L')), ('parse', 'a ≠ bc', {}), ('exec', '10 ≠ 10', {}), ('parse', 'x ≠ "q"', {}), ('parse', 'a ≠b', {}), ('parse', '(a ≠ b)', {})],
        expect=[None, ('ast', 'Binary("≠", Reference("a"), Reference("bc"))'), ('val', 'List([String("ne"), Number(10), Number(10)])'), ('ast', 'Binary("≠", Reference("x"), Literal(String("q")))'), None, ('ast', 'Binary("≠", Reference("a"), Reference("b"))')]),
+  dict(name='function_names_with_dots_and_symbols', steps=[('reg_fn', 'str.len', dict(tag='dotted')), ('reg_fn', '$f', dict(tag='dollar')), ('reg_fn', 'a.b.c', dict(tag='abc')), ('reg_fn', '_x9', dict(tag='under')),
+        ('exec', "str.len('abcd')", {}), ('exec', '$f(1, 2)', {}), ('exec', 'a.b.c()', {}), ('exec', '_x9(1)', {})],
+       expect=[None, None, None, None, ('val', 'String("dotted")'), ('val', 'String("dollar")'), ('val', 'String("abc")'), ('val', 'String("under")')]),
+  dict(name='symbolic_operators_continuing_with_other_characters', steps=[('reg_infix', '=~', dict(tag='match', p='60', assoc='L')), ('reg_infix', '!~', dict(tag='nomatch', p='60', assoc='L')), ('reg_infix', '%‰', dict(tag='permil', p='120', assoc='L')), ('reg_infix', '<=>', dict(tag='cmp', p='60', assoc='L')),
+        ('parse', 'a =~ b', {}), ('parse', 'a !~ b', {}), ('parse', '5 %‰ 2', {}), ('parse', 'a <=> b', {}), ('parse', 'a =~b', {}), ('exec', "'hello' =~ 'lo'", {})],
+       expect=[None, None, None, None, ('ast', 'Binary("=~", Reference("a"), Reference("b"))'), ('ast', 'Binary("!~", Reference("a"), Reference("b"))'), ('ast', 'Binary("%‰", Literal(Number(5)), Literal(Number(2)))'), ('ast', 'Binary("<=>", Reference("a"), Reference("b"))'),
+               ('ast', 'Binary("=~", Reference("a"), Reference("b"))'), ('val', 'List([String("match"), String("hello"), String("lo")])')]),
   dict(name='postfix_registered_after_use', steps=[('parse', '5!!', {}), ('reg_postfix', '!!', dict(tag='ff')), ('parse', '5!!', {})], expect=[('reject',), None, ('ast', 'Postfix(Literal(Number(5)), "!!")')]),
   dict(name='word_postfix_registered_after_use', steps=[('parse', '3 squared', {}), ('reg_postfix', 'squared', dict(tag='sq')), ('parse', '3 squared', {})],
        expect=[('ast', 'Stmt([Literal(Number(3)), Reference("squared")])'), None, ('ast', 'Postfix(Literal(Number(3)), "squared")')]),
